@@ -8,6 +8,7 @@ import (
 	"log/slog"
 	"net"
 	"path/filepath"
+	"syscall"
 	"time"
 
 	"github.com/xakep666/ps3netsrv-go/internal/logutil"
@@ -29,14 +30,40 @@ type Server[StateT any] struct {
 func (s *Server[StateT]) Serve(ln net.Listener) error {
 	defer ln.Close()
 
+	var retryDelay time.Duration
+
 	for {
 		conn, err := ln.Accept()
 		if err != nil {
+			// running out of descriptors (too many clients) or connection aborted by peer before accept
+			// is not a reason to stop serving everybody, retry like net/http does
+			if isTemporaryAcceptError(err) {
+				retryDelay = min(max(2*retryDelay, 5*time.Millisecond), time.Second)
+				s.Logger.Warn("Accept failed, retrying", logutil.ErrorAttr(err), slog.Duration("delay", retryDelay))
+				time.Sleep(retryDelay)
+
+				continue
+			}
+
 			return fmt.Errorf("accept failed: %w", err)
 		}
 
+		retryDelay = 0
+
 		go s.serveConn(conn)
 	}
+}
+
+func isTemporaryAcceptError(err error) bool {
+	for _, errno := range []syscall.Errno{
+		syscall.EMFILE, syscall.ENFILE, syscall.ENOBUFS, syscall.ENOMEM, syscall.ECONNABORTED, syscall.EINTR,
+	} {
+		if errors.Is(err, errno) {
+			return true
+		}
+	}
+
+	return false
 }
 
 func (s *Server[StateT]) setConnReadDeadline(conn net.Conn) error {
